@@ -227,11 +227,118 @@ pub fn run(ctx: &mut Ctx) {
         if tortured {
             ctx.bump("torture_instances");
         }
+        let clean = fail.is_none();
         if let Some((o, d)) = fail {
             ctx.violation(&o, &o, wl, case, json!({"problem": p.to_json(), "settings": problem::settings_json(&st), "check": d, "c": eq.c, "d": eq.d, "e": eq.e}));
         }
         if case < 2 {
             ctx.sample(json!({"workload": wl, "n": n, "m": m, "tortured": tortured, "max_iter": st.equilibrate_max_iter, "bounds": [lo, hi], "c": eq.c, "d_range": [eq.d.iter().cloned().fold(f64::INFINITY, f64::min), eq.d.iter().cloned().fold(0.0, f64::max)]}));
+        }
+        // ---- the same entry equations must still hold after in-place data updates (all four targets, full
+        // and (index,value) forms): the scaling vectors stay what they were, the data follow the user's values
+        if !clean || !st.equilibrate_enable || eq.d.len() != n || eq.e.len() != m {
+            continue;
+        }
+        let mut solver = solver;
+        let mut model = p.clone();
+        model.P = p.P.to_triu();
+        let mut log = vec![];
+        let mut rejected = false;
+        // entries rewritten by an update carry one scaling product (tight tolerance); the others keep the
+        // rounding of the iterative construction
+        let mut touched: std::collections::HashSet<(char, usize)> = Default::default();
+        for _ in 0..rng.usize(1, 3) {
+            let target = *rng.choose(&['P', 'A', 'q', 'b']);
+            let cur: Vec<f64> = match target {
+                'P' => model.P.nzval.clone(),
+                'A' => model.A.nzval.clone(),
+                'q' => model.q.clone(),
+                _ => model.b.iter().map(|v| v.min(bound)).collect(),
+            };
+            if cur.is_empty() {
+                continue;
+            }
+            let partial = rng.bool(0.5);
+            let idx: Vec<usize> = if partial { (0..rng.usize(1, cur.len().min(5))).map(|_| rng.usize(0, cur.len() - 1)).collect() } else { (0..cur.len()).collect() };
+            let mag = *rng.choose(&[1.0, 1.0, 1e3, 1e-3]);
+            let vals: Vec<f64> = idx.iter().map(|&i| if cur[i].abs() < 1e15 { cur[i] * rng.range(0.5, 1.5) + mag * rng.range(-1.0, 1.0) } else { cur[i] }).collect();
+            let res = catch(std::panic::AssertUnwindSafe(|| {
+                if partial {
+                    let tup = (idx.clone(), vals.clone());
+                    match target {
+                        'P' => solver.update_P(&tup).map_err(|e| format!("{e:?}")),
+                        'A' => solver.update_A(&tup).map_err(|e| format!("{e:?}")),
+                        'q' => solver.update_q(&tup).map_err(|e| format!("{e:?}")),
+                        _ => solver.update_b(&tup).map_err(|e| format!("{e:?}")),
+                    }
+                } else {
+                    match target {
+                        'P' => solver.update_P(&vals).map_err(|e| format!("{e:?}")),
+                        'A' => solver.update_A(&vals).map_err(|e| format!("{e:?}")),
+                        'q' => solver.update_q(&vals).map_err(|e| format!("{e:?}")),
+                        _ => solver.update_b(&vals).map_err(|e| format!("{e:?}")),
+                    }
+                }
+            }));
+            log.push(json!({"target": target.to_string(), "partial": partial, "index": if partial { json!(idx) } else { json!(null) }, "values": vals}));
+            match res {
+                Ok(Ok(())) => {
+                    for (t, &i) in idx.iter().enumerate() {
+                        touched.insert((target, i));
+                        match target {
+                            'P' => model.P.nzval[i] = vals[t],
+                            'A' => model.A.nzval[i] = vals[t],
+                            'q' => model.q[i] = vals[t],
+                            _ => model.b[i] = vals[t],
+                        }
+                    }
+                }
+                _ => {
+                    // refusals are C08's subject; stop the history here
+                    rejected = true;
+                    break;
+                }
+            }
+        }
+        if rejected || log.is_empty() {
+            ctx.bump("update_histories_skipped");
+            continue;
+        }
+        ctx.eval(1);
+        ctx.bump("update_histories_checked");
+        let data = &solver.data;
+        let eq = &data.equilibration;
+        let mut fail: Option<(String, serde_json::Value)> = None;
+        let loose = 8.0 + 4.0 * st.equilibrate_max_iter as f64;
+        let tol = |t: char, i: usize| if touched.contains(&(t, i)) { 8.0 } else { loose };
+        for j in 0..n {
+            for k in model.P.colptr[j]..model.P.colptr[j + 1] {
+                let i = model.P.rowval[k];
+                let want = eq.c * eq.d[i] * model.P.nzval[k] * eq.d[j];
+                if rel_ulps(data.P.nzval[k], want) > tol('P', k) && want.is_finite() && fail.is_none() {
+                    fail = Some(("P_entry:after_update".into(), json!({"i": i, "j": j, "got": data.P.nzval[k], "want": want})));
+                }
+            }
+            for k in model.A.colptr[j]..model.A.colptr[j + 1] {
+                let i = model.A.rowval[k];
+                let want = eq.e[i] * model.A.nzval[k] * eq.d[j];
+                if rel_ulps(data.A.nzval[k], want) > tol('A', k) && want.is_finite() && fail.is_none() {
+                    fail = Some(("A_entry:after_update".into(), json!({"i": i, "j": j, "got": data.A.nzval[k], "want": want})));
+                }
+            }
+            let want = eq.c * eq.d[j] * model.q[j];
+            if rel_ulps(data.q[j], want) > tol('q', j) && want.is_finite() && fail.is_none() {
+                fail = Some(("q_entry:after_update".into(), json!({"j": j, "got": data.q[j], "want": want})));
+            }
+        }
+        for i in 0..m {
+            let want = eq.e[i] * model.b[i].min(bound);
+            if rel_ulps(data.b[i], want) > tol('b', i) && want.is_finite() && fail.is_none() {
+                fail = Some(("b_entry:after_update".into(), json!({"i": i, "got": data.b[i], "want": want})));
+            }
+        }
+        if let Some((o, d)) = fail {
+            ctx.violation(&o, &o, wl, case, json!({"problem": p.to_json(), "settings": problem::settings_json(&st), "updates": log, "check": d, "c": eq.c, "d": eq.d, "e": eq.e}));
         }
     }
 }
